@@ -56,6 +56,9 @@ def make(shape, family, seed):
         x = rng.integers(-160, 161, size=shape) / 16
         if x.ndim == 2:
             x[0, :] = 2.5
+    elif family == "continuous":
+        # no ties at all (the grid families have many): dropping or moving a single sample changes every estimate
+        x = rng.normal(0.0, 50.0, size=shape)
     else:
         x = rng.integers(-800, 801, size=shape) / 16
     return x.astype(np.float64)
@@ -95,7 +98,7 @@ def strat_case(draw):
         a = (1 if a > 0 else -1) * 2.0**-6
     return {"shape": shape, "axis": axis, "method": draw(st.sampled_from(METHODS)),
             "loc": draw(st.sampled_from(["median", "mean", "norm"])),
-            "family": draw(st.sampled_from(["spread", "spread", "ties", "const", "outliers", "const_lane"])),
+            "family": "continuous" if max(shape) > 1000 else draw(st.sampled_from(["spread", "spread", "ties", "const", "outliers", "const_lane", "continuous"])),
             "seed": draw(st.integers(0, 2**31 - 1)), "a": a, "b16": draw(st.integers(-1600, 1600)),
             "layout": draw(st.sampled_from(["C", "C", "F", "transposed_view", "strided_view", "reversed_view"])),
             "int_dtype": draw(st.sampled_from([None, None, "uint8", "uint16", "int16", "int32", "int64", "uint32"]))}
@@ -272,7 +275,7 @@ def check(case, ctx):
     # ---- the container dtype is not part of the value either: 16*x - min is integer-valued; stored in an integer
     # dtype that can hold it (unsigned ones included) it is the affine image 16*x + c of x
     idt = case.get("int_dtype")
-    if idt is not None and method != "doublemad":
+    if idt is not None and method != "doublemad" and case["family"] != "continuous":
         xi = np.round(16.0 * x)
         assert np.array_equal(xi, 16.0 * x)
         xi = xi - xi.min() if idt.startswith("u") else xi
